@@ -23,9 +23,13 @@ open Jmes
 
 /-- the runtime panic texts -/
 def idxMsg : String := "index out of range"
+/-- `panic: runtime error: slice bounds out of range` -/
 def sliceMsg : String := "slice bounds out of range"
+/-- `panic: runtime error: makeslice: len out of range` -/
 def makeMsg : String := "makeslice: len out of range"
+/-- `panic: interface conversion: …` -/
 def assertMsg : String := "interface conversion"
+/-- `panic: runtime error: integer divide by zero` -/
 def divMsg : String := "integer divide by zero"
 
 /-- `xs[i]` (read): panics unless `0 ≤ i < len(xs)` -/
@@ -78,6 +82,7 @@ def mod? (a b : Int) : Res Int := if b = 0 then .panic divMsg else .ok (Int.tmod
 
 /-! ## the primitives succeed exactly within bounds -/
 
+/-- within bounds `xs[i]` succeeds with the element the model's `getD` reads -/
 theorem idx?_ok {α} (xs : List α) (i : Int) (h0 : 0 ≤ i) (h1 : i < xs.length) (d : α) :
     idx? xs i = .ok (xs.getD i.toNat d) := by
   have hlt : i.toNat < xs.length := by omega
@@ -85,11 +90,13 @@ theorem idx?_ok {α} (xs : List α) (i : Int) (h0 : 0 ≤ i) (h1 : i < xs.length
   rw [if_pos ⟨h0, h1⟩, List.getD_eq_getElem?_getD, List.getElem?_eq_getElem hlt]
   rfl
 
+/-- the same for a natural-number index -/
 theorem idx?_ok_nat {α} (xs : List α) (k : Nat) (h1 : k < xs.length) (d : α) :
     idx? xs (k : Int) = .ok (xs.getD k d) := by
   have := idx?_ok xs (k : Int) (by omega) (by omega) d
   simpa using this
 
+/-- `xs[i]` panics exactly out of bounds -/
 theorem idx?_panic_iff {α} (xs : List α) (i : Int) :
     idx? xs i = .panic idxMsg ↔ ¬ (0 ≤ i ∧ i < xs.length) := by
   constructor
@@ -100,14 +107,17 @@ theorem idx?_panic_iff {α} (xs : List α) (i : Int) :
     cases h
   · intro h; unfold idx?; rw [if_neg h]
 
+/-- within bounds `xs[i] = a` succeeds -/
 theorem set?_ok {α} (xs : List α) (i : Int) (a : α) (h0 : 0 ≤ i) (h1 : i < xs.length) :
     set? xs i a = .ok (xs.set i.toNat a) := by
   unfold set?; rw [if_pos ⟨h0, h1⟩]
 
+/-- within bounds `xs[i:j]` succeeds with the model's `drop`/`take` -/
 theorem slice?_ok {α} (xs : List α) (i j : Int) (h0 : 0 ≤ i) (h1 : i ≤ j) (h2 : j ≤ xs.length) :
     slice? xs i j = .ok ((xs.drop i.toNat).take (j - i).toNat) := by
   unfold slice?; rw [if_pos ⟨h0, h1, h2⟩]
 
+/-- `xs[i:j]` panics exactly when `0 ≤ i ≤ j ≤ len` fails -/
 theorem slice?_panic_iff {α} (xs : List α) (i j : Int) :
     slice? xs i j = .panic sliceMsg ↔ ¬ (0 ≤ i ∧ i ≤ j ∧ j ≤ xs.length) := by
   unfold slice?
@@ -115,6 +125,7 @@ theorem slice?_panic_iff {α} (xs : List α) (i j : Int) :
   · intro h hb; rw [if_pos hb] at h; cases h
   · intro h; rw [if_neg h]
 
+/-- within bounds `xs[i:]` is the model's `drop` -/
 theorem sliceFrom?_ok {α} (xs : List α) (i : Int) (h0 : 0 ≤ i) (h1 : i ≤ xs.length) :
     sliceFrom? xs i = .ok (xs.drop i.toNat) := by
   unfold sliceFrom?
@@ -123,22 +134,26 @@ theorem sliceFrom?_ok {α} (xs : List α) (i : Int) (h0 : 0 ≤ i) (h1 : i ≤ x
   apply List.take_of_length_le
   rw [List.length_drop]; omega
 
+/-- the same for a natural-number bound -/
 theorem sliceFrom?_ok_nat {α} (xs : List α) (k : Nat) (h1 : k ≤ xs.length) :
     sliceFrom? xs (k : Int) = .ok (xs.drop k) := by
   have := sliceFrom?_ok xs (k : Int) (by omega) (by omega)
   simpa using this
 
+/-- within bounds `xs[:j]` is the model's `take` -/
 theorem sliceTo?_ok {α} (xs : List α) (j : Int) (h0 : 0 ≤ j) (h1 : j ≤ xs.length) :
     sliceTo? xs j = .ok (xs.take j.toNat) := by
   unfold sliceTo?
   rw [slice?_ok xs 0 j (Int.le_refl _) h0 h1]
   simp
 
+/-- the same for a natural-number bound -/
 theorem sliceTo?_ok_nat {α} (xs : List α) (k : Nat) (h1 : k ≤ xs.length) :
     sliceTo? xs (k : Int) = .ok (xs.take k) := by
   have := sliceTo?_ok xs (k : Int) (by omega) (by omega)
   simpa using this
 
+/-- `xs[a:b]` for natural-number bounds -/
 theorem slice?_ok_nat {α} (xs : List α) (a b : Nat) (h1 : a ≤ b) (h2 : b ≤ xs.length) :
     slice? xs (a : Int) (b : Int) = .ok ((xs.drop a).take (b - a)) := by
   have := slice?_ok xs (a : Int) (b : Int) (by omega) (by omega) (by omega)
@@ -146,10 +161,13 @@ theorem slice?_ok_nat {α} (xs : List α) (a b : Nat) (h1 : a ≤ b) (h2 : b ≤
   have e : ((b : Int) - (a : Int)).toNat = b - a := by omega
   simp [e]
 
+/-- `make([]any, n)` succeeds for `0 ≤ n ≤ makeLimit` -/
 theorem make?_ok (n : Int) (h0 : 0 ≤ n) (h1 : n ≤ makeLimit) : make? n = .ok (List.replicate n.toNat .null) := by
   unfold make?; rw [if_pos ⟨h0, h1⟩]
 
+/-- division by a non-zero divisor is the model's truncated division -/
 theorem div?_ok (a b : Int) (h : b ≠ 0) : div? a b = .ok (Int.tdiv a b) := by unfold div?; rw [if_neg h]
+/-- remainder by a non-zero divisor is the model's truncated remainder -/
 theorem mod?_ok (a b : Int) (h : b ≠ 0) : mod? a b = .ok (Int.tmod a b) := by unfold mod?; rw [if_neg h]
 
 /-! ## the primitives do panic out of bounds (non-vacuity) -/
